@@ -93,6 +93,13 @@ Section Oracle.
    AwesomeVersionCompareException.  Supplied by the harness with the library's
    real answer; every theorem quantifies over it. *)
 Variable orc : avop -> pstr -> pstr -> option bool.
+(* Whether AwesomeVersion(s).strategy is SPECIALCONTAINER ("latest", "dev",
+   "stable", "beta" after awesomeversion's own trimming) for a string s that is
+   not dotted numeric; a dotted numeric string never is (the pattern needs
+   letters).  Also supplied by the harness, also quantified over. *)
+Variable cont : pstr -> bool.
+
+Definition is_container (s : pstr) : bool := negb (dotted_numeric s) && cont s.
 
 Definition av_cmp (op : avop) (l r : pstr) : option bool :=
   if dotted_numeric l && dotted_numeric r then Some (av_num op l r) else orc op l r.
@@ -104,22 +111,28 @@ Definition eval_vtest (t : vtest) (input loop : pstr) : option bool :=
   option_map (xorb (vt_neg t))
     (av_cmp (vt_op t) (side_val (vt_l t) input loop) (side_val (vt_r t) input loop)).
 
-(* validation.is_version *)
-Definition is_version (v : val) : res pstr :=
+(* validation.is_version; rejects_container = the generated fact that the
+   container words are refused before the comparison (fix b5ee08d) *)
+Definition is_version_with (rejects_container : bool) (v : val) : res pstr :=
   let s := py_str v in
+  if rejects_container && is_container s then
+    (if is_version_catches_container_raise then Raise VolInvalid else Raise ValueError)
+  else
   match eval_vtest is_version_test s [] with
   | None => if is_version_catches_compare_error then Raise VolInvalid else Raise OtherError
   | Some true => if is_version_catches_own_raise then Raise VolInvalid else Raise ValueError
   | Some false => Ok s
   end.
+Definition is_version (v : val) : res pstr := is_version_with is_version_rejects_container v.
 
 (* validation.safe_is_version *)
-Definition safe_is_version (v : val) : res pstr :=
-  match is_version v with
+Definition safe_is_version_with (rejects_container : bool) (v : val) : res pstr :=
+  match is_version_with rejects_container v with
   | Ok s => Ok s
   | Raise VolInvalid => Ok safe_fallback
   | Raise e => Raise e
   end.
+Definition safe_is_version (v : val) : res pstr := safe_is_version_with is_version_rejects_container v.
 
 (* const.get_const: the keys in the order the generator expression visits them *)
 Definition iter_keys : list pstr :=
